@@ -16,20 +16,23 @@ package flow
 //@ pure static func stepT(s *Step, t trace) trace = s.Do != nil ? t ++ seq(evCall(s.Do)) : t
 // run*: the configuration (step, pending value, trace) walks Success links while user code returns and jumps to the
 // Error link with the raised value when it panics; at the end of the chain the pending value decides.
+// Every call of Run is marked in the ghost trace by evMark("Run", step); the walk therefore adds the successor's marker.
+//@ pure func enter(q *Step, t trace) trace = t ++ seq(evMark("Run", q))
 //@ pure static rec func runT(s *Step, p any, t trace) trace =
-//@     stepPanics(s, t) ? runT(s.Error, cbPanicVal(s.Do, len(t)), stepT(s, t)) :
-//@     s.Success != nil ? runT(s.Success, p, stepT(s, t)) :
+//@     stepPanics(s, t) ? runT(s.Error, cbPanicVal(s.Do, len(t)), enter(s.Error, stepT(s, t))) :
+//@     s.Success != nil ? runT(s.Success, p, enter(s.Success, stepT(s, t))) :
 //@     (p != nil && isType(p, "ExitCode")) ? stepT(s, t) ++ seq(evExit(asType(p, "ExitCode"))) : stepT(s, t)
 // outcome: 0 returns normally, 1 raises runV, 2 exits
 //@ pure static rec func runK(s *Step, p any, t trace) int =
-//@     stepPanics(s, t) ? runK(s.Error, cbPanicVal(s.Do, len(t)), stepT(s, t)) :
-//@     s.Success != nil ? runK(s.Success, p, stepT(s, t)) :
+//@     stepPanics(s, t) ? runK(s.Error, cbPanicVal(s.Do, len(t)), enter(s.Error, stepT(s, t))) :
+//@     s.Success != nil ? runK(s.Success, p, enter(s.Success, stepT(s, t))) :
 //@     p == nil ? 0 : (isType(p, "ExitCode") ? 2 : 1)
 //@ pure static rec func runV(s *Step, p any, t trace) any =
-//@     stepPanics(s, t) ? runV(s.Error, cbPanicVal(s.Do, len(t)), stepT(s, t)) :
-//@     s.Success != nil ? runV(s.Success, p, stepT(s, t)) : p
+//@     stepPanics(s, t) ? runV(s.Error, cbPanicVal(s.Do, len(t)), enter(s.Error, stepT(s, t))) :
+//@     s.Success != nil ? runV(s.Success, p, enter(s.Success, stepT(s, t))) : p
 
 //@ func (*Step).Run
+//@   logged
 //@   requires wf: stepsWF() && s != nil
 //@   ensures normal: p == nil && runK(s, p, old(trace)) == 0 && trace == runT(s, p, old(trace))
 //@   panics raise: runK(s, p, old(trace)) == 1 && panicval == runV(s, p, old(trace)) && trace == runT(s, p, old(trace))
